@@ -1,4 +1,6 @@
 """C18 - text rendering is the same in Python and C++ and is not order-sensitive (DESIGN 3/C18)."""
+import re
+
 from .. import schema as S, values as V, pyrt, cppdrv
 from ..harness import Acc
 from . import common as C, cppcommon as CC
@@ -17,6 +19,10 @@ ASSUMPTIONS = [
 TIMEOUT = {'quick': 1500, 'thorough': 10800}
 WORKERS = 10
 NOFLOAT = [t for t in S.PALETTE_TAGS if t != 'r64']
+
+
+# every byte value except 0x27 (the property's exclusion); the delicate ones (escapes, quotes, boundaries) weigh more
+ALPHABET = V.BYTES_ALPHABET * 6 + [x for x in range(256) if x != 0x27]
 
 
 def shards(ctx):
@@ -64,6 +70,7 @@ def run_shard(spec):
         sch, names, tagmap, w, rng, mod = env['sch'], env['names'], env['tagmap'], env['wire'], env['rng'], env['mod']
         cases = []
         info = {}
+        byte_values_seen = set()
         for ti, n in enumerate(names):
             if has_float(sch, n):
                 acc.count('types_with_floats_skipped')
@@ -71,7 +78,7 @@ def run_shard(spec):
             if spec['kind'] == 'replay':
                 vals = [(spec['extra'].get('mode'), C.unjson(spec['extra']['value']))]
             else:
-                vals = V.value_set(sch, w, n, rng, nrand=3, aligned_greedy=True, allow_float=False)
+                vals = V.value_set(sch, w, n, rng, nrand=3, aligned_greedy=True, allow_float=False, bytes_alphabet=ALPHABET)
             for mode, v in vals:
                 exp, spans = w.encode(n, v, '<')
                 cid = 'c%d' % len(cases)
@@ -87,6 +94,8 @@ def run_shard(spec):
             for k in ('bytes', 'enum'):
                 if any(s[2] == k for s in spans):
                     acc.feature('has-' + k)
+            for esc in re.findall(r'\\(x[0-9a-f]{2}|[tnr\\])', text):
+                byte_values_seen.add(esc)
             if '\\x' in text:
                 acc.feature('hex-escape-followed-by-lines' if text.index('\\x') < text.rfind('\n', 0, len(text) - 1) else 'hex-escape')
 
@@ -136,6 +145,8 @@ def run_shard(spec):
                               witness(cpp_text=cpptext, python_text=pytext))
             elif len(acc.p['samples']) < 3 and nlines >= 4 and '\\x' in text:
                 acc.sample({'schema': sch.closure(n).to_prophy(), 'type': n, 'value': C.jsonable(v), 'text': text})
+        for esc in byte_values_seen:
+            acc.feature('escape:' + esc)
         for rep in reports:
             if rep.get('timeout'):
                 acc.p['inconclusive'] = 'driver watchdog fired'
@@ -153,5 +164,9 @@ def finish(ctx, merged, specs):
     for k in ('cpp_renderings', 'python_renderings'):
         if not merged['counters'].get(k):
             missing.append(k)
+    escapes = [f for f in merged['features'] if f.startswith('escape:')]
+    merged['counters']['distinct_escape_sequences_rendered'] = len(escapes)
+    if len(escapes) < 150:       # 162 exist: 4 named ones and \\x00..\\x1f, \\x7f..\\xff without tab, newline, CR
+        missing.append('fewer than 150 of the 162 escape sequences rendered (%d)' % len(escapes))
     if missing and not merged['inconclusive']:
         merged['inconclusive'] = 'coverage floor not met: %s' % missing
